@@ -128,7 +128,11 @@ static JanetAssembler as_parent;          /* the direct parent (if any); its anc
 #ifndef AS_DEPTH
 #define AS_DEPTH 2                        /* longest parent chain of the ordinary units */
 #endif
-static JanetAssembler as_chain[AS_DEPTH > 1 ? AS_DEPTH - 1 : 1];
+/* ancestors are only ever asked for their parent (first member of JanetAssembler): a link is enough, and an access to any
+ * other member of an ancestor is a pointer-check failure */
+struct as_link { JanetAssembler *parent; };
+static struct as_link as_chain[AS_DEPTH > 1 ? AS_DEPTH - 1 : 1];
+#define AS_LINK(i) ((JanetAssembler *) &as_chain[i])
 static JanetFuncDef as_pdef;
 static int as_nested;
 
@@ -262,7 +266,7 @@ JanetAssembleResult as_asm1_stub(JanetAssembler *parent, Janet source, int flags
 #endif
     as_nested++;
     if (nd_int()) {             /* the nested assembler raised: control is in the parent's handler, not here */
-#ifdef AS_SEC_CLOSURES
+#if defined(AS_SEC_CLOSURES) && AS_DEPTH < JANET_RECURSION_GUARD
         REACH("nested assembly raises");
 #endif
         __CPROVER_assume(0);
@@ -321,13 +325,13 @@ void h_asm1(void) {
 #ifdef AS_DEPTH_GUARD
     /* exactly AS_DEPTH assemblers above this one: as_parent -> as_chain[AS_DEPTH-2] -> ... -> as_chain[0] -> NULL.
      * With AS_DEPTH == JANET_RECURSION_GUARD the description must be refused before any nested definition is assembled. */
-    for (int i = 0; i < AS_DEPTH - 1; i++) as_chain[i].parent = i ? &as_chain[i - 1] : (JanetAssembler *) 0;
-    as_parent.parent = AS_DEPTH > 1 ? &as_chain[AS_DEPTH - 2] : (JanetAssembler *) 0;
+    for (int i = 0; i < AS_DEPTH - 1; i++) as_chain[i].parent = i ? AS_LINK(i - 1) : (JanetAssembler *) 0;
+    as_parent.parent = AS_DEPTH > 1 ? AS_LINK(AS_DEPTH - 2) : (JanetAssembler *) 0;
     JanetAssembler *parent = &as_parent;
 #else
     /* no parent, one parent, or a parent with a grandparent (the depth guard counts the chain: unit asm.asm1.depth-guard) */
     as_chain[0].parent = (JanetAssembler *) 0;
-    as_parent.parent = nd_int() ? &as_chain[0] : (JanetAssembler *) 0;
+    as_parent.parent = nd_int() ? AS_LINK(0) : (JanetAssembler *) 0;
     JanetAssembler *parent = nd_int() ? &as_parent : (JanetAssembler *) 0;
 #endif
     as_subname = as_any();
@@ -348,10 +352,14 @@ void h_asm1(void) {
                          ((d->flags ^ as_snap.flags) & (JANET_FUNCDEF_FLAG_VARARG | JANET_FUNCDEF_FLAG_STRUCTARG)) == 0,
                          "asm1: nothing janet_verify looked at is changed after verification");
         __CPROVER_assert(!as_raise_ok, "asm1: the error handler does not produce a definition");
+#if AS_DEPTH < JANET_RECURSION_GUARD
         REACH("asm1 returns a verified definition");
+#endif
     } else {
         __CPROVER_assert(res.status == JANET_ASSEMBLE_ERROR && res.funcdef == (void *) 0, "asm1: an error result carries no definition");
         __CPROVER_assert(parent == (void *) 0, "asm1: only the outermost assembler returns an error result (nested ones pass it to their parent)");
+#ifndef AS_DEPTH_GUARD            /* with a parent the error goes to the parent instead */
         REACH("asm1 returns an error result");
+#endif
     }
 }
